@@ -674,7 +674,7 @@ Proof.
     by rewrite u_full0_spec. }
   pose proof (forallb_true_all _ _ F2) as Hunused. clear F2.
   assert (Hall : Forall removable vrs).
-  { apply Forall_forall. intros v Hv. specialize (Hunused v Hv).
+  { apply Forall_forall. intros v Hv. specialize (Hunused v Hv). cbv beta in Hunused.
     destruct (vars s !! v) as [l|] eqn:El; [|done].
     apply bool_decide_eq_true in Hunused. exists l. split; [done|].
     by rewrite <- u_full0_spec. }
@@ -685,9 +685,8 @@ Proof.
   { intros k1 k2 a. rewrite !Hs. intros H1 H2.
     destruct (succ s !! k1) as [t1|] eqn:E1; [|done].
     destruct (succ s !! k2) as [t2|] eqn:E2; [|done].
-    cbn in H1, H2. injection H1 as <-. injection H2 as H2.
+    cbn in H1, H2. injection H1 as <-. injection H2 as Hφ Hlo Hhi.
     destruct (full_node _ _ E1) as [Hf1 Hn1], (full_node _ _ E2) as [Hf2 Hn2].
-    unfold relabel in H2. injection H2 as Hφ Hlo Hhi.
     assert (t_lvl t1 = t_lvl t2) as Hlv.
     { destruct (lt_eq_lt_dec (t_lvl t1) (t_lvl t2)) as [[Hlt|]|Hlt]; [|done|].
       - pose proof (phi_mono _ _ Hf1 Hf2 Hn2 Hlt). lia.
@@ -714,16 +713,23 @@ Proof.
       exists l. split; [by apply (inv_vars _ HI)|]. split; [done|].
       rewrite phi_cnt; [done| |done]. apply (inv_vars _ HI) in Hx.
       pose proof (name_level s v l HI Hx). fold n in H. lia. }
-  assert (HI1 : Inv s1).
-  { apply (Inv_relabel s s1 φ (fun l => l ∈ u_full s vrs) HI); try done.
-    - apply phi_mono.
-    - apply full_n.
-    - intros k t Hk. by destruct (full_node _ _ Hk).
-    - fold n. intros l' Hl'. rewrite Hφn in Hl'.
-      destruct (cnt_surj P n l' Hl') as (l&Hln&HPl&Hc). exists l.
-      split_and!; try done. rewrite phi_cnt; [done|lia|done].
-    - intros k t. symmetry. apply Hpinv.
-    - intros v l. rewrite Hv. symmetry. apply Hlinv. }
+  assert (Hknode : ∀ (k : positive) (t : triple), succ s !! k = Some t →
+            t_lvl t ∈ u_full s vrs).
+  { intros k t Hk. by destruct (full_node _ _ Hk). }
+  assert (Hle : φ (nvars s) ≤ nvars s).
+  { fold n. rewrite Hφn. apply cnt_le. }
+  assert (Hsurj : ∀ l', l' < φ (nvars s) →
+            ∃ l, l < nvars s ∧ l ∈ u_full s vrs ∧ φ l = l').
+  { fold n. intros l' Hl'. rewrite Hφn in Hl'.
+    destruct (cnt_surj P n l' Hl') as (l&Hln&HPl&Hc). exists l.
+    split_and!; try done. rewrite phi_cnt; [done|lia|done]. }
+  assert (Hp' : ∀ (k : positive) (t : triple),
+            succ s1 !! k = Some t ↔ pred s1 !! t = Some k).
+  { intros k t. symmetry. apply Hpinv. }
+  assert (Hb' : ∀ v l : nat, vars s1 !! v = Some l ↔ lvl2var s1 !! l = Some v).
+  { intros v l. rewrite Hv. symmetry. apply Hlinv. }
+  pose proof (Inv_relabel s s1 φ (fun l => l ∈ u_full s vrs) HI phi_mono full_n
+                Hknode Hsurj Hs Hp' Hr Hm Hi Hvl Hb' Hnv) as HI1.
   split; [done|]. split; [done|]. split; [done|]. split; [done|]. split; [done|].
   split; [done|]. split; [done|]. split; [done|]. split.
   - intros L [H1 H2].
@@ -737,15 +743,61 @@ Proof.
   - intros u Hu. split.
     + unfold valid. rewrite Hs, fmap_is_Some. apply Hu.
     + intros ρ.
-      apply (denv_relabel s s1 φ (fun l => l ∈ u_full s vrs) HI); try done.
-      * apply phi_mono.
-      * apply full_n.
-      * intros k t Hk. by destruct (full_node _ _ Hk).
-      * fold n. rewrite Hφn. apply cnt_le.
-      * fold n. intros l' Hl'. rewrite Hφn in Hl'.
-        destruct (cnt_surj P n l' Hl') as (l&Hln&HPl&Hc). exists l.
-        split_and!; try done. rewrite phi_cnt; [done|lia|done].
-      * intros k t. symmetry. apply Hpinv.
-      * intros v l. rewrite Hv. symmetry. apply Hlinv.
+      by apply (denv_relabel s s1 φ (fun l => l ∈ u_full s vrs) HI phi_mono full_n
+                  Hknode Hle Hsurj Hs Hp' Hr Hm Hi Hvl Hb' Hnv).
 Qed.
 End undeclare.
+
+(** the specification of [undeclare_vars], free of the auxiliary names *)
+Theorem undeclare_spec s vrs r s' :
+  Inv s → undeclare_vars vrs s = (r, s') →
+  (¬ Forall (removable s) vrs ∧ r = Err EValue ∧ s' = s) ∨
+  (Forall (removable s) vrs ∧ ∃ rm : gset nat, r = Ok rm ∧
+     (∀ v, v ∈ rm ↔ removable s v ∧ (vrs = [] ∨ v ∈ vrs)) ∧
+     Inv s' ∧ frame s s' ∧ refc s' = refc s ∧ ite_tab s' = ∅ ∧
+     dom (succ s') = dom (succ s) ∧
+     (∀ k t, succ s !! k = Some t →
+             ∃ l, succ s' !! k = Some (Triple l (t_lo t) (t_hi t))) ∧
+     (∀ v, is_Some (vars s' !! v) ↔ is_Some (vars s !! v) ∧ v ∉ rm) ∧
+     (∀ v w l1 l2 l1' l2', vars s !! v = Some l1 → vars s !! w = Some l2 →
+        vars s' !! v = Some l1' → vars s' !! w = Some l2' → (l1 < l2 ↔ l1' < l2')) ∧
+     (∀ L, Counts s L → Counts s' L) ∧
+     ∀ u, valid s u → valid s' u ∧ ∀ ρ, denv s' u ρ = denv s u ρ).
+Proof.
+  intros HI H.
+  destruct (undeclare_run s vrs HI r s' H)
+    as [?|(Hall&->&HI'&Hf&Hr&Hi&Hs&Hv&HC&Hd)]; [by left|right].
+  split; [done|]. exists (u_rm s vrs). split; [done|].
+  split; [intros v; by apply u_rm_spec|].
+  split; [done|]. split; [done|]. split; [done|]. split; [done|].
+  set (φ := fun x => default 0 (u_nl s vrs !! x)) in *.
+  split; [|split; [|split; [|split; [|split; [done|done]]]]].
+  - apply stdpp.sets.set_eq. intros k. by rewrite !elem_of_dom, Hs, fmap_is_Some.
+  - intros k t Hk. exists (φ (t_lvl t)). by rewrite Hs, Hk.
+  - intros v. unfold u_rm. rewrite fold_removed_spec. split.
+    + intros [l' Hl']. apply Hv in Hl' as (l&Hl&Hfl&_). split; [by eexists|].
+      intros (l0&Hl0&Hn). congruence.
+    + intros [[l Hl] Hn]. destruct (decide (l ∈ u_full s vrs)) as [Hfl|Hfl].
+      * exists (φ l). apply Hv. by exists l.
+      * exfalso. apply Hn. by exists l.
+  - intros v w l1 l2 l1' l2' Hv1 Hv2 Hv1' Hv2'.
+    apply Hv in Hv1' as (l1_&E1&Hf1&->), Hv2' as (l2_&E2&Hf2&->).
+    assert (l1_ = l1) as -> by congruence. assert (l2_ = l2) as -> by congruence.
+    pose proof (name_level s _ _ HI Hv1). pose proof (name_level s _ _ HI Hv2).
+    split.
+    + intros Hlt. apply (phi_mono s vrs); try done. lia.
+    + intros Hlt. destruct (lt_eq_lt_dec l1 l2) as [[?| ->]|Hgt]; [done|lia|].
+      pose proof (phi_mono s vrs l2 l1 Hf2 Hf1 ltac:(lia) Hgt) as Hc. cbv zeta in Hc. lia.
+Qed.
+
+(** no name given: every unused variable goes *)
+Corollary undeclare_all_unused s r s' :
+  Inv s → undeclare_vars [] s = (r, s') →
+  ∃ rm : gset nat, r = Ok rm ∧ (∀ v, v ∈ rm ↔ removable s v) ∧ Inv s' ∧
+    ∀ u, valid s u → valid s' u ∧ ∀ ρ, denv s' u ρ = denv s u ρ.
+Proof.
+  intros HI H. destruct (undeclare_spec s [] r s' HI H) as [(Hn&_)|(_&rm&->&Hrm&HI'&Hrest)].
+  { exfalso. apply Hn. constructor. }
+  exists rm. split; [done|]. split; [|split; [done|apply Hrest]].
+  intros v. rewrite Hrm. naive_solver.
+Qed.
